@@ -10,7 +10,7 @@ CLAIMED = {
          ASMTECH + "; stateful trace validation of sizing-loop hook events (Tr_Sizing)", "7 C03"),
  "C12": ("M6809!Decode is a total decoder checked against the encoder by TLC; TLC enumerates the ill-typed forms (wrong mode / register / too-wide value) for every mnemonic row, which must be rejected; single-edit mutations and random operand strings are assembled and whatever is accepted is judged by TLC: decodes as exactly one instruction of that mnemonic, consuming all bytes, byte count = reserved space",
          ASMTECH, "7 C12"),
- "C02": ("spec/AsmRef.tla states LayoutInv directly (addresses advance by the bytes emitted, labels name their statement's address) and TLC checks it together with CertOK on all programs of the bounded model; those programs, one labelled frame per opcode-table cell and seeded random programs of 3-200 statements (ORG placements, EQUs, duplicate/undefined labels) are assembled and TLC judges every recorded listing/image/symbol table/origin",
+ "C02": ("spec/AsmRef.tla states LayoutInv directly (addresses advance by the bytes emitted, labels name their statement's address) and TLC checks it together with CertOK on all programs of the bounded model; those programs, one labelled frame per opcode-table cell and seeded random programs of 3-200 statements (ORG placements, EQUs, duplicate/undefined labels) are assembled and TLC judges every recorded listing/image/symbol table/origin; spec/AsmPasses.tla gives one step predicate per pass of translate_statements (collect, translate, size, lay, fix, backpatch), MC_AsmPasses checks that they are satisfiable, tight and together imply the end-to-end statement, and Tr_Passes validates the pass-boundary hook events of random programs against them",
          ASMTECH, "7 C02"),
  "C04": ("Asm!Eval is the 16-bit expression semantics (limb multiplication, truncating division, division by zero, overflow latitude); TLC enumerates operand position x {number, EQU before/after, label before/after} op {same} for + - * / in a fixed frame at two origins; each program is assembled and TLC checks that the encoded value equals Eval under the environment the listing itself claims, and the symbol-table values",
          ASMTECH, "7 C04"),
@@ -28,7 +28,7 @@ CLAIMED = {
          "TLC model checking of the Disk allocation machine (real and small geometry, exhaustion runs, exhaustive length bookkeeping) + TLC-exported add-sequences replayed into DiskFile + TLC validation of per-add image deltas (Tr_Disk)", "7 C07/C08/C15"),
  "C15": ("Disk.tla states enabledness of AddFile exactly (granules needed vs free, slot free) and TLC checks Capacity / FitsIfRoom / exhaustion runs (72 slots, 68 granules); replayed sequences must succeed when the machine says they must fit and fail when they cannot, using the minimum number of granules (or one more at exact multiples), all previously free, and one slot",
          "TLC model checking of the Disk allocation machine (real and small geometry, exhaustion runs, exhaustive length bookkeeping) + TLC-exported add-sequences replayed into DiskFile + TLC validation of per-add image deltas (Tr_Disk)", "7 C07/C08/C15"),
- "C09": ("spec/Host.tla AppendPreserves / AppendHappens / NeverLost checked by TLC on all command histories of depth 2 (thorough 3); replayed through the CLIs and, for boundary-length files up to a full medium and tapes past 161,280 bytes, through VirtualFile open/add/save on real temp files; after every step the host bytes are read by the specification's readers (every earlier file, in order, then the new one) and the hook events (exists, sniffed kind, wrote) are validated",
+ "C09": ("spec/Host.tla AppendPreserves / AppendHappens / NeverLost checked by TLC on all command histories of depth 2 (thorough 3); replayed through the CLIs and, for boundary-length files up to a full medium and tapes past 161,280 bytes, through VirtualFile open/add/save on real temp files; after every step the host bytes are read by the specification's readers (every earlier file, in order, then the new one) and the hook events (exists, sniffed kind, wrote) are validated; file_util --list is a read-only action of the machine whose output must name exactly the files the abstract content holds (tool reader vs spec reader after every history prefix)",
          "TLC model checking of the Host command machine (table vs separately phrased properties, all histories of bounded depth) + TLC-exported command histories replayed through both CLIs + TLC validation of every step: contents read by the spec's tape / disk readers, VirtualFile hook events", "7 C09"),
  "C10": ("spec/Host.tla: the table Allowed(pre, cmd) of required post contents and, independently phrased, OnlyAppendModifies / CompleteImage; TLC checks the table against them over the full matrix {--to_bin,--to_cas,--to_dsk} x {append, not} x 8 kinds of existing target x both tools and all 2-step sequences; every first-step cell and a seeded sample of the sequences is replayed through assembler.py / file_util.py, bytes before/after compared, what was written is classified by the spec's readers, refusals must print a message",
          "TLC model checking of the Host command machine (table vs separately phrased properties, all histories of bounded depth) + TLC-exported command histories replayed through both CLIs + TLC validation of every step: contents read by the spec's tape / disk readers, VirtualFile hook events", "7 C10"),
@@ -36,7 +36,7 @@ CLAIMED = {
          "TLC-enumerated configurations replayed through assembler.py + TLC validation of the saved files with the spec's tape / disk readers (Tr_C11)", "7 C11"),
  "C16": ("conversions through file_util.py (tape<->disk<->binary, every kind of --files selection and spelling, and back) judged step by step with Host!Allowed: the target, read by the spec's readers, holds exactly the selected catalogue files in source order",
          "TLC model checking of the Host command machine (table vs separately phrased properties, all histories of bounded depth) + TLC-exported command histories replayed through both CLIs + TLC validation of every step: contents read by the spec's tape / disk readers, VirtualFile hook events", "7 C16"),
- "C17": ("spec/Session.tla memo machine: out = memo[src] whenever src was seen; TLC enumerates every order of <= 4 assemblies over a pool of 6 sources; each history is run warm and in fresh processes under several hash seeds, every event carries the full output, Tr_Session folds the memo machine over all of them",
+ "C17": ("spec/Session.tla memo machine: out = memo[src] whenever src was seen; TLC enumerates every order of <= 4 assemblies over a pool of 8 sources; the reference output of a source is its assembly alone in a fresh interpreter, each history is run warm and in fresh processes under several hash seeds, and one earlier program out of thousands (ill-typed, mutated, random) is followed by six probe programs in the same interpreter; every event carries the full output, Tr_Session folds the memo machine over all of them",
          "TLC-exported histories replayed in warm and fresh interpreters + TLC validation with the memo machine (Tr_Session)", "7 C17"),
  "C18": ("Session!Relocated / Renamed / SameOutput / PrefixStable as operators over two recorded outputs; random accepted programs x {origin shift, label bijection, white space, comments, mnemonic case, suffix}; both assemblies are one pair trace judged by TLC; the reference assembler AsmRef is model-checked so the relations are known satisfiable",
          "TLC trace validation of pair traces (Tr_Pair) + TLC model checking of AsmRef", "7 C18"),
